@@ -13,7 +13,7 @@ LEVEL = "exploration"
 RULE = (
     "at every state of seeded histories (all instance classes without filter; "
     "positive-duration classes under every filter configuration; random resets "
-    "inside histories) a random sequence of 5-40 queries (the 11 cached "
+    "inside histories; built-in, composed and user-written filters) a random sequence of 5-40 queries (the 11 cached "
     "zero-argument queries, with repetition, plus parametrised ones) is issued and "
     "EACH answer is compared with the reference model when it is returned, so "
     "corruption caused by an earlier query is seen by a later one; tiny instances: "
@@ -39,7 +39,9 @@ ANCHORS = [
 ]
 ASSUMPTIONS = [
     "is_ongoing() is not judged (docstring and body disagree; not among the listed set queries)",
-    "with a filter installed only positive-duration instances are used (the filtered clock is then defined, see C06)",
+    "current time = minimum start over the available operations (documented definition), for built-in "
+    "filters, their compositions and user-written filter callables; with the dominated filter on "
+    "zero-duration instances the available set itself is taken from the library (validated sub-list)",
     "list-valued queries are compared as multisets of operation identities plus 'no duplicates'",
 ]
 REQUIRED_COUNTERS = {"mirror_created_mid_history": 20, "query_answers_checked": 2000, "states": 200, "pair_orders_checked": 100,
@@ -54,7 +56,7 @@ ZERO_ARG = [
     "ongoing_operations", "mirror",
 ]
 PARAM = ["is_scheduled", "next_operation", "earliest_start_time",
-         "remaining_duration", "start_time", "is_operation_ready"]
+         "remaining_duration", "start_time", "is_operation_ready", "min_start_time"]
 
 
 def gen_cases(ctx):
@@ -63,9 +65,15 @@ def gen_cases(ctx):
     for i in range(n):
         filt = i % 3 != 0
         c = gen_history_case(
-            rng, classes=gen.POSITIVE_CLASSES if filt else gen.INSTANCE_CLASSES,
+            rng, classes=gen.INSTANCE_CLASSES,
             max_jobs=rng.choice([2, 3, 4, 5]), max_machines=rng.choice([2, 3, 4]),
             filters=filt)
+        if filt and rng.random() < 0.3:
+            # user-written filter callables (mirrored in the reference model), alone or composed
+            names = [rng.choice(gen.CUSTOM_FILTERS)]
+            if rng.random() < 0.4:
+                names.append(rng.choice(gen.FILTER_NAMES + gen.CUSTOM_FILTERS))
+            c["filter"] = {"names": names, "form": "custom"}
         c["kind"] = "history"
         c["resets"] = rng.random() < 0.25
         # the unscheduled-operations observer may also be created in the middle of a history
@@ -87,7 +95,19 @@ def check_query(ctx, run: Run, mirror, q, rng, trace):
     """Issue query q on the real dispatcher and compare with the reference."""
     d, r = run.d, run.r
     names = run.filter_names
-    now = r.current_time(names)
+    if run.exact_filters:
+        avail_ref = r.available(names)
+    else:
+        # dominated filter + zero durations: the documented shortcut is order dependent, so
+        # the library's own available list (validated) defines the clock for this state
+        lib = [o.operation_id for o in d.available_operations()]
+        ready = r.ready()
+        if (ready and not lib) or any(x not in ready for x in lib) or len(set(lib)) != len(lib):
+            ctx.violation("c05_available_not_a_sublist_of_ready",
+                          {"available": lib, "ready": ready, "history": list(r.history)})
+        avail_ref = lib
+        ctx.count("states_with_library_defined_available_set")
+    now = r.min_start(avail_ref)
 
     def bad(what, got, want):
         ctx.violation("c05_query_mismatch",
@@ -110,7 +130,7 @@ def check_query(ctx, run: Run, mirror, q, rng, trace):
             bad("list", _ids(got), r.ready())
     elif q == "available_operations":
         got = d.available_operations()
-        want = r.available(names)
+        want = avail_ref
         if _ids(got) != want or not same_objects(got, _ids(got)):
             bad("list", _ids(got), want)
     elif q == "unscheduled_operations":
@@ -123,12 +143,12 @@ def check_query(ctx, run: Run, mirror, q, rng, trace):
             bad("multiset", _ids(got), r.scheduled())
     elif q == "available_machines":
         got = d.available_machines()
-        want = sorted({m for o in r.available(names) for m in r.op_machines[o]})
+        want = sorted({m for o in avail_ref for m in r.op_machines[o]})
         if sorted(got) != want:
             bad("set", got, want)
     elif q == "available_jobs":
         got = d.available_jobs()
-        want = sorted({r.op_job[o] for o in r.available(names)})
+        want = sorted({r.op_job[o] for o in avail_ref})
         if sorted(got) != want:
             bad("set", got, want)
     elif q == "completed_operations":
@@ -182,20 +202,24 @@ def check_query(ctx, run: Run, mirror, q, rng, trace):
             except ValidationError:
                 pass
     elif q == "earliest_start_time":
-        ready = r.ready()
-        if ready:
-            o = rng.choice(ready)
-            got = d.earliest_start_time(run.op(o))
-            if got != r.est(o):
-                bad(f"op {o}", got, r.est(o))
+        # any operation (also not-ready / scheduled ones): max(min machine free, job free)
+        o = rng.choice(r.ready()) if r.ready() and rng.random() < 0.5 else rng.randrange(r.num_ops)
+        got = d.earliest_start_time(run.op(o))
+        if got != r.est(o):
+            bad(f"op {o}", got, r.est(o))
     elif q == "start_time":
-        ready = r.ready()
-        if ready:
-            o = rng.choice(ready)
-            m = rng.choice(r.op_machines[o])
-            got = d.start_time(run.op(o), m)
-            if got != r.start_on(o, m):
-                bad(f"op {o} machine {m}", got, r.start_on(o, m))
+        o = rng.choice(r.ready()) if r.ready() and rng.random() < 0.5 else rng.randrange(r.num_ops)
+        m = rng.choice(r.op_machines[o])
+        got = d.start_time(run.op(o), m)
+        if got != r.start_on(o, m):
+            bad(f"op {o} machine {m}", got, r.start_on(o, m))
+    elif q == "min_start_time":
+        pool = r.unscheduled()
+        sub = rng.sample(pool, rng.randint(0, len(pool))) if pool else []
+        got = d.min_start_time([run.op(o) for o in sub])
+        want = r.min_start(sub)
+        if got != want:
+            bad(f"ops {sub}", got, want)
     elif q == "remaining_duration":
         sos = [so for lst in d.schedule.schedule for so in lst]
         if sos:
@@ -256,7 +280,7 @@ def run_case(ctx, case):
             traces.append(tuple(query_burst(ctx, run, mirror, rng)))
             if rng.random() < 0.3:
                 check_partitions(ctx, run)
-            now = run.r.current_time(run.filter_names)
+            now = run.r.current_time(run.filter_names) if run.exact_filters else run.r.current_time(None)
             if len(run.r.ready()) >= 2 or run.r.ongoing(now):
                 nontrivial = True
             if case.get("resets") and steps > 0 and rng.random() < 0.12:
